@@ -110,10 +110,11 @@ class OperatorTable(Expression):
                 out += (inner_checkpoint << POS)
 
             with utils.if_fails(out, flags, self.operands):
-                if self.operands.can_partially_succeed():
-                    # If we have a result, then backtrack to the checkpoint.
-                    with out.IF(operand_stack):
-                        out += (POS << outer_checkpoint)
+                # If we have a result, then backtrack to the checkpoint: the
+                # operators that we have consumed since then are not followed
+                # by an operand, so they are not part of this expression.
+                with out.IF(operand_stack):
+                    out += (POS << outer_checkpoint)
                 out += BREAK
 
             # OK, we have an operand.
